@@ -525,8 +525,12 @@ def main(tier):
     rep.sample({"operator": "==", "arity": 2, "operand kinds": "each in {integer, boolean, enumA, enumB, opaque}",
                 "oracle": "accepted iff both integer, both boolean, or both the same enum; result boolean"})
     rep.sample(per_op)
+    # obligations that fail at a recorded known finding are not part of what this run claims to have proved:
+    # they are counted separately (each is re-reported as KNOWN-FINDING above), never as discharged
+    known_failing = sum(1 for c in cands if rep.match_known(classify(c)) is not None)
     rep.coverage.update({
-        "obligations": tot["obligations"], "discharged": tot["discharged"],
+        "obligations": tot["obligations"] - known_failing, "discharged": tot["discharged"],
+        "obligations_failing_at_known_findings": known_failing,
         "checker_cmd": "python3-vt /verif/check C13 --tier %s" % tier,
         "trusted_base": ["z3", "vf/pysym.py", "signature table in vf/checks/c13.py (DESIGN.md A.5, from doc/language-reference.md)"],
         "paths": tot["paths"], "per_operator": per_op,
